@@ -158,7 +158,8 @@ Lemma place_spec n items l d o : In (n, (items, l, d)) (p_strands p) -> o < l ->
 Proof. intros Hin Ho. unfold place_okb in PLACE. rewrite forallb_forall in PLACE. specialize (PLACE _ Hin). cbn in PLACE.
   apply andb_prop in PLACE. destruct PLACE as [A B]. rewrite forallb_forall in B. specialize (B o ltac:(apply in_seq; lia)).
   apply andb_prop in B. destruct B as [B1 B2]. apply Nat.eqb_eq in B1. apply Nat.ltb_lt in B2.
-  split; [destruct (afind (l_tstart lay) n); [discriminate | discriminate] | split; assumption]. Qed.
+  split; [|split; assumption]. apply orb_prop in A. destruct A as [A|A]; [apply Nat.eqb_eq in A; lia|].
+  destruct (afind (l_tstart lay) n); [discriminate | discriminate]. Qed.
 
 Lemma total_app a b : DGraph.total p (a ++ b) = DGraph.total p a + DGraph.total p b.
 Proof. unfold DGraph.total. induction a as [|x a IH]; simpl; [reflexivity | rewrite IH; lia]. Qed.
@@ -167,7 +168,7 @@ Proof. unfold DGraph.total. induction a as [|x a IH]; simpl; [reflexivity | rewr
 Lemma spos_node n items l d o : In (n, (items, l, d)) (p_strands p) -> o < l -> In (spos p so n o) (nodes p so).
 Proof. intros Hin Ho. unfold nodes, d_nodes. rewrite map_app. apply in_or_app. left. unfold pos_nodes, spos.
   destruct (Bool.bool_dec so true) as [SO|SO']; [|assert (SO : so = false) by (destruct so; congruence)]; rewrite SO.
-  - destruct (first_inst_in p (p_structs p) n) as [[sn off]|] eqn:FI; [|exfalso; apply (wf_placed p so WF SO n _ Hin); exact FI].
+  - destruct (first_inst_in p (p_structs p) n) as [[sn off]|] eqn:FI; [|exfalso; apply (wf_placed p so WF SO n items l d Hin ltac:(lia)); exact FI].
     destruct (first_inst_spec p _ _ _ _ FI) as [names [st [ls [pre [post [A [B ->]]]]]]].
     pose proof (wf_struct_len p so WF SO sn names st ls A) as EL.
     assert (SL : strand_len p n = l).
@@ -431,15 +432,14 @@ Proof. induction a as [|[k0 v0] a IH]; simpl; [reflexivity|]. destruct (String.e
 Definition pr_step (acc : res results) (x : string * (list sref * nat * bool)) : res results :=
   let '(n, (items, l, _)) := x in
   do a <- acc;
-  match afind (l_tstart lay) n with
-  | None => Err "strand-not-placed"
-  | Some s0 =>
-      do v <- read_positions nts s0 l;
-      match wc_codes v with
-      | None => Err "keyerror"
-      | Some _ => do s' <- set_items (S (List.length (p_sups p))) p items v (r_state a);
-                  OK {| r_state := s'; r_strands := r_strands a ++ [(n, v)] |}
-      end
+  do s0 <- match afind (l_tstart lay) n with
+           | Some s0 => OK s0
+           | None => if Nat.eqb l 0 then OK 0 else Err "strand-not-placed" end;
+  do v <- read_positions nts s0 l;
+  match wc_codes v with
+  | None => Err "keyerror"
+  | Some _ => do s' <- set_items (S (List.length (p_sups p))) p items v (r_state a);
+              OK {| r_state := s'; r_strands := r_strands a ++ [(n, v)] |}
   end.
 Lemma process_results_fold : process_results p lay nts = fold_left pr_step (p_strands p) (OK {| r_state := []; r_strands := [] |}).
 Proof. unfold process_results. apply (f_equal (fun f => fold_left f (p_strands p) _)). reflexivity. Qed.
@@ -453,13 +453,11 @@ Proof. induction ss as [|[n [[items l] d]] ss IH]; intros a INC [IA [IK RD]].
   - assert (Hin : In (n, (items, l, d)) (p_strands p)) by (apply INC; left; reflexivity).
     destruct (wf_strand p so WF n items l d Hin) as [AF [OKI EL]].
     destruct (strand_agree n items l d Hin) as [v [RV AG]].
-    assert (TS : exists s0, afind (l_tstart lay) n = Some s0 /\ tstart_of lay n = s0).
-    { unfold tstart_of. destruct (afind (l_tstart lay) n) as [s0|] eqn:T; [eauto|].
-      destruct l as [|l'].
-      - (* an empty strand: the layout check says nothing; read it off PLACE directly *)
-        unfold place_okb in PLACE. rewrite forallb_forall in PLACE. specialize (PLACE _ Hin). cbn in PLACE. rewrite T in PLACE. discriminate.
-      - destruct (place_spec n items (S l') d 0 Hin ltac:(lia)) as [NN _]. contradiction. }
-    destruct TS as [s0 [T1 T2]]. rewrite T2 in RV.
+    assert (TS : exists s0, match afind (l_tstart lay) n with Some s0 => OK s0 | None => if Nat.eqb l 0 then OK 0 else Err "strand-not-placed" end = OK s0 /\
+                            read_positions nts s0 l = OK v).
+    { unfold tstart_of in RV. destruct (afind (l_tstart lay) n) as [s0|] eqn:T; [exists s0; auto|].
+      destruct l as [|l']; [exists 0; auto|]. destruct (place_spec n items (S l') d 0 Hin ltac:(lia)) as [NN _]. contradiction. }
+    destruct TS as [s0 [T1 T2]].
     destruct (agree_wc cval _ _ AG) as [wv WV].
     destruct (set_items_ok (S NS) NS NS (fun it0 st0 v0 => set_ref_ok (S NS) NS NS it0 st0 v0 ltac:(lia) ltac:(lia)) items (r_state a) v OKI IA IK AG)
       as [st' [ES [IA' [IK' [X' [C' U']]]]]].
@@ -470,10 +468,10 @@ Proof. induction ss as [|[n [[items l] d]] ss IH]; intros a INC [IA [IK RD]].
       destruct (afind (r_strands a) m) as [u0|] eqn:Q.
       - rewrite (afind_app_some _ [(n, v)] m u0 Q) in Hm. inversion Hm; subst. apply RD, Q.
       - rewrite (afind_app_none _ [(n, v)] m Q) in Hm. simpl in Hm. destruct (String.eqb n m) eqn:E; [|discriminate].
-        apply String.eqb_eq in E. subst m. inversion Hm; subst u. rewrite SL, T2. exact RV. }
+        apply String.eqb_eq in E. subst m. inversion Hm; subst u. rewrite SL. exact RV. }
     destruct (IH a1 (fun x Hx => INC x (or_intror Hx)) P1) as [a' [EF [P' [X2 [AP QQ]]]]].
     exists a'. split.
-    + cbn [fold_left]. unfold pr_step at 2. cbn [bind]. rewrite T1, RV. cbn [bind]. rewrite WV. fold NS. rewrite ES. cbn [bind]. exact EF.
+    + cbn [fold_left]. unfold pr_step at 2. cbn [bind]. rewrite T1. cbn [bind]. rewrite T2. cbn [bind]. rewrite WV. fold NS. rewrite ES. cbn [bind]. exact EF.
     + split; [exact P'|]. split; [apply (ext_trans _ _ _ X' X2)|]. split.
       * intros m u Hm. apply AP. unfold a1. cbn [r_strands]. apply afind_app_some, Hm.
       * intros n0 items0 l0 d0 [H0|H0]; [|apply (QQ n0 items0 l0 d0 H0)]. inversion H0; subst n0 items0 l0 d0.
@@ -481,8 +479,8 @@ Proof. induction ss as [|[n [[items l] d]] ss IH]; intros a INC [IA [IK RD]].
         assert (F1 : exists v1, afind (r_strands a1) n = Some v1).
         { unfold a1. cbn [r_strands]. destruct (afind (r_strands a) n) as [u0|] eqn:Q; [exists u0; apply afind_app_some, Q|].
           exists v. rewrite (afind_app_none _ _ _ Q). simpl. rewrite String.eqb_refl. reflexivity. }
-        destruct F1 as [v1 F1]. pose proof (AP n v1 F1) as F2. pose proof (RD' n v1 F2) as R2. rewrite SL, T2, RV in R2. inversion R2; subst v1.
-        exists v. split; [exact F2 | split; [rewrite T2; exact RV | split; [exact AG | apply (covered_ext _ _ _ X2 C')]]]. Qed.
+        destruct F1 as [v1 F1]. pose proof (AP n v1 F1) as F2. pose proof (RD' n v1 F2) as R2. rewrite SL, RV in R2. inversion R2; subst v1.
+        exists v. split; [exact F2 | split; [exact RV | split; [exact AG | apply (covered_ext _ _ _ X2 C')]]]. Qed.
 
 Theorem process_results_ok : exists a, process_results p lay nts = OK a /\ InvA (r_state a) /\ InvK NS (r_state a) /\
   forall n items l d, In (n, (items, l, d)) (p_strands p) -> Qst a n items l.
